@@ -387,19 +387,28 @@ func chunkEvent(hi int, prefix []byte, free int, alpha []rune) {
 	w.Emit(e)
 }
 
-// all 65 536 two-octet extensions of prefix, folded into counts and panic signatures
-func digestEvent(hi int, prefix []byte) {
+// all two-symbol extensions of prefix (65 536 for octets), folded into counts and panic signatures
+func digestEvent(hi int, prefix []byte, alpha []rune) {
+	h := &helpers[hi]
 	e := blank("Digest", hi, prefix)
 	e.Free = 2
 	counts := make([]int, 6)
 	var acc sigAcc
-	buf := make([]byte, len(prefix)+2)
-	copy(buf, prefix)
-	n := len(prefix)
-	for a := 0; a < 256; a++ {
-		buf[n] = byte(a)
-		for b := 0; b < 256; b++ {
-			buf[n+1] = byte(b)
+	var syms [][]byte
+	if h.text {
+		for _, r := range alpha {
+			syms = append(syms, []byte(string(r)))
+			e.Alpha = append(e.Alpha, int(r))
+		}
+	} else {
+		for v := 0; v < 256; v++ {
+			syms = append(syms, []byte{byte(v)})
+		}
+	}
+	buf := make([]byte, 0, len(prefix)+8)
+	for _, a := range syms {
+		for _, b := range syms {
+			buf = append(append(append(buf[:0], prefix...), a...), b...)
 			code, pi := call(hi, buf)
 			counts[code]++
 			if code == cPanic {
@@ -487,10 +496,11 @@ func sweepItems(hi int, rng *rand.Rand) []item {
 		var prefixes func(p []rune, depth int)
 		prefixes = func(p []rune, depth int) {
 			pp := append([]rune{}, p...)
-			items = append(items, func() { chunkEvent(hi, []byte(string(pp)), 2, textAlphabet) })
-			if depth == 4 {
+			if depth == 4 { // length 6: counts and panic signatures only
+				items = append(items, func() { digestEvent(hi, []byte(string(pp)), textAlphabet) })
 				return
 			}
+			items = append(items, func() { chunkEvent(hi, []byte(string(pp)), 2, textAlphabet) })
 			for _, r := range textAlphabet {
 				prefixes(append(pp, r), depth+1)
 			}
@@ -500,8 +510,10 @@ func sweepItems(hi int, rng *rand.Rand) []item {
 	}
 	items = append(items, func() { callEvent(hi, nil) })
 	items = append(items, func() { chunkEvent(hi, nil, 1, nil) })
-	for b0 := 0; b0 < 256; b0++ {
-		p := []byte{byte(b0)}
+	// length 2: all 65 536 as one digest; per-input codes (class comparison) for the boundary first octets
+	items = append(items, func() { digestEvent(hi, nil, nil) })
+	for _, b0 := range boundaryFirst {
+		p := []byte{b0}
 		items = append(items, func() { chunkEvent(hi, p, 1, nil) })
 	}
 	// length 3: seeded chunks with per-input codes (class comparison) ...
@@ -520,12 +532,12 @@ func sweepItems(hi int, rng *rand.Rand) []item {
 	if ev.Thorough() {
 		for b0 := 0; b0 < 256; b0++ {
 			p := []byte{byte(b0)}
-			items = append(items, func() { digestEvent(hi, p) })
+			items = append(items, func() { digestEvent(hi, p, nil) })
 		}
 	} else {
 		for _, b0 := range boundaryFirst {
 			p := []byte{b0}
-			items = append(items, func() { digestEvent(hi, p) })
+			items = append(items, func() { digestEvent(hi, p, nil) })
 		}
 	}
 	return items
@@ -637,6 +649,9 @@ func main() {
 				continue
 			}
 			in := inputBytes(&helpers[hi], c.In)
+			if len(in) > helpers[hi].maxLen { // longer than the information element can carry
+				continue
+			}
 			items = append(items, func() { callEvent(hi, in) })
 		}
 	case "record":
